@@ -28,19 +28,28 @@ log_level(False)
 class Clock:
     """stands in for the `time` module (and for its functions, when a module imported them by name)"""
 
+    # as on any real host the wall clock and the monotonic clock advance together but read very different values
+    # (seconds since 1970 against seconds since boot); both stay exact in binary floating point (ticks of 2**-10 s)
+    EPOCH, SINCE_BOOT = 1_700_000_000, 5_000
+
     def __init__(self):
         self.ticks = 1024 * 1024
 
     def time(self):
-        return self.ticks / 1024.0
+        return self.EPOCH + self.ticks / 1024.0
 
-    # the same clock under the other names code may reasonably use
-    monotonic = perf_counter = time
+    def monotonic(self):
+        return self.SINCE_BOOT + self.ticks / 1024.0
+
+    perf_counter = monotonic
 
     def time_ns(self):
-        return self.ticks * 1000000000 // 1024
+        return self.EPOCH * 1000000000 + self.ticks * 1000000000 // 1024
 
-    monotonic_ns = perf_counter_ns = time_ns
+    def monotonic_ns(self):
+        return self.SINCE_BOOT * 1000000000 + self.ticks * 1000000000 // 1024
+
+    perf_counter_ns = monotonic_ns
 
     def __call__(self):
         return self.time()
@@ -129,12 +138,23 @@ def patch_time(module):
     for name, val in list(vars(module).items()):
         if val is real_time:
             setattr(module, name, CLK)
-        elif val in (real_time.time, real_time.monotonic, real_time.perf_counter):
+        elif val is real_time.time:
             setattr(module, name, CLK.time)
-        elif val in (real_time.time_ns, real_time.monotonic_ns, real_time.perf_counter_ns):
+        elif val in (real_time.monotonic, real_time.perf_counter):
+            setattr(module, name, CLK.monotonic)
+        elif val is real_time.time_ns:
             setattr(module, name, CLK.time_ns)
+        elif val in (real_time.monotonic_ns, real_time.perf_counter_ns):
+            setattr(module, name, CLK.monotonic_ns)
         elif val is real_time.sleep:
             setattr(module, name, CLK.sleep)
+
+
+def patch_all_time():
+    """every module of the package that reaches the clock at all reaches the virtual one"""
+    for name, mod in list(sys.modules.items()):
+        if (name == 'ubxlib' or name.startswith('ubxlib.')) and mod is not None:
+            patch_time(mod)
 
 
 def install_clock():
